@@ -17,6 +17,8 @@ func main() {
 	r.Register("p", func(a []string) string { return pgen.Run(a).Full })
 	// m Frame -> exported methods and fields of packet.Frame by reflection (completeness of the accessor table)
 	r.Register("m", func(a []string) string { return pgen.FrameAPI() })
+	// pp FAM MS tok..: Parse fed back to back while a ping is pending (pingunit.go)
+	r.Register("pp", func(a []string) string { o, _ := runPing(a); return o })
 	if r.Replayed() {
 		return
 	}
@@ -58,4 +60,6 @@ func main() {
 			r.Stat("cap.exact", 1)
 		}
 	})
+	// last: a violation here can leave the process-global waiter table locked
+	pingUnit(r)
 }
